@@ -143,8 +143,28 @@ def run_case(case):
             unknown = [r for r in grids if r not in pos]
             if missing:
                 i = pos[missing[0]]
+                # can the (test-pinned) 'not in' pruning explain EVERY lost row?  It prunes a row group when a 'not in' list holds the
+                # smallest or the largest value of the column in that group.
+                def _notin_explains(ri):
+                    rg = next((rows_ for rows_ in rg_rows if ri in rows_), None)
+                    if rg is None:
+                        return False
+                    for g in groups:
+                        for c, op, v in g:
+                            if op != "not in" or c not in cols:
+                                continue
+                            cells = [cols[c][j] for j in rg if cols[c][j] is not None]
+                            try:
+                                lo, hi = min(cells), max(cells)
+                                listed = [P.norm(x) for x in v]
+                            except Exception:
+                                continue
+                            if lo in listed or hi in listed:
+                                return True
+                    return False
                 res["failures"].append({"kind": "qualifying_row_not_returned", "n": len(missing), "rid": int(missing[0]),
-                                        "row": {c: repr(cols[c][i]) for g in groups for c, _, _ in g}, **ctx})
+                                        "row": {c: repr(cols[c][i]) for g in groups for c, _, _ in g},
+                                        "every_lost_row_in_a_group_whose_bound_is_in_a_not_in_list": all(_notin_explains(pos[r_]) for r_ in missing), **ctx})
             if extra:
                 i = pos[extra[0]]
                 res["failures"].append({"kind": "non_qualifying_row_returned", "n": len(extra), "rid": int(extra[0]),
